@@ -59,7 +59,7 @@ def run(ctx):
                 recs.insert(i, {"ev": "Blocked", "pos": 1, "inHandler": True})
                 return recs
         return recs
-    big = max(ta, key=os.path.getsize)
+    big = sorted(ta, key=os.path.getsize, reverse=True)
     for f, name in ((overread, "stream read returns a byte beyond the body"), (early_eof, "EOF reported before the end of the body"),
                     (probe_garbled, "pipelined probe request parsed from the wrong offset"),
                     (blocked, "a read blocked waiting for bytes beyond the body")):
